@@ -232,6 +232,8 @@ def _job(args):
     t0 = time.time()
     key, viols, summ = replay_history(world, history, check, log_mode=opts.get("log_mode", False),
                                       extra_env=opts.get("extra_env"))
+    if opts.get("all_steps"):
+        return history, key, viols, summ, time.time() - t0
     # only violations at the last step are new (prefixes were judged at their own depth)
     last = len(history) - 1
     return history, key, [(i, s, d) for (i, s, d) in viols if i == last], summ, time.time() - t0
@@ -244,6 +246,41 @@ class Explorer:
 
     def close(self):
         self.pool.shutdown(wait=True, cancel_futures=True)
+
+    def run_histories(self, world: World, histories, check_mod, check_name="step_check", opts=None, twice=0):
+        """Execute an explicit list of histories (every step judged). The first `twice` are run twice
+        and must agree (determinism guard)."""
+        opts = dict(opts or {})
+        opts["all_steps"] = True
+        t0 = time.time()
+        jobs = [(world, h, check_name, check_mod, opts) for h in histories]
+        jobs += jobs[:twice]
+        res = {"states": 0, "transitions": 0, "histories": 0, "violations": [], "depth_done": max((len(h) for h in histories), default=0),
+               "capped": False, "outcomes": set(), "samples": [], "nondet": []}
+        keys = set()
+        first = {}
+        for history, key, viols, summ, dt in self.pool.map(_job, jobs, chunksize=2):
+            hk = json.dumps(history)
+            ok = json.dumps([(s["rc"], s["ran"], s["listing"]) for s in summ])
+            if hk in first:
+                if first[hk] != (key, ok):
+                    res["nondet"].append(history)
+                continue
+            first[hk] = (key, ok)
+            res["histories"] += 1
+            res["transitions"] += len(history)
+            keys.add(key)
+            res["outcomes"].add(ok)
+            for (i, sig, detail) in viols:
+                res["violations"].append((history, i, sig, detail, summ))
+            if not res["samples"] or len(res["samples"][0]) < len(summ):
+                res["samples"] = [summ]
+        res["states"] = len(keys)
+        res["outcomes"] = len(res["outcomes"])
+        res["wall_s"] = time.time() - t0
+        if res["nondet"]:
+            raise MachineryError("nondeterministic replay for histories: %r" % res["nondet"][:3])
+        return res
 
     def explore(self, world: World, alphabet, depth, check_mod, check_name="step_check", dedup=True,
                 budget_s=None, opts=None, determinism_depth=2, stats=None):
